@@ -23,7 +23,8 @@ Fixpoint h_steps (cbf : nat -> bool) (fuel k r nblk : nat) (s : hst) (esis : lis
    (api 1: the table is walked in increasing ESI order); after finish (if requested); blocks left after release
    together with the number of source entries that hold a library block (these two must be equal) *)
 Record heap_obs := { ho_setup : nat; ho_calls : list (option nat); ho_finish : option (option (nat * bool));
-                     ho_left : option (nat * nat) }.
+                     ho_left : option (nat * nat);
+                     ho_own : list (option own) (* who owns each source entry at the end: compared with the pointers of of_get_source_symbols_tab *) }.
 
 Definition heap_session (k r nblk : nat) (H : list (list nat)) (lastnull : bool) (cbmode : nat) (api1 : bool)
                         (esis : list nat) (fin : bool) (perm : list nat) : option heap_obs :=
@@ -37,7 +38,7 @@ Definition heap_session (k r nblk : nat) (H : list (list nat)) (lastnull : bool)
   | Some s =>
     let '(l, f) := h_steps cbf fuel k r nblk s esis in
     match f with
-    | None => Some {| ho_setup := ledger nblk s; ho_calls := l; ho_finish := None; ho_left := None |}
+    | None => Some {| ho_setup := ledger nblk s; ho_calls := l; ho_finish := None; ho_left := None; ho_own := [] |}
     | Some sf =>
       let calls := if api1 then [Some (ledger nblk sf)] else l in
       let '(fo, sl) := if fin then match hfinish cbf fuel perm sf with
@@ -47,7 +48,8 @@ Definition heap_session (k r nblk : nat) (H : list (list nat)) (lastnull : bool)
       Some {| ho_setup := ledger nblk s; ho_calls := calls; ho_finish := fo;
          ho_left := match sl with None => None | Some s2 =>
                       match hrelease s2 with None => None
-                      | Some h => Some (length (live h), length (lib_blocks (skipn (ITModel.r (core s2)) (htab s2)))) end end |}
+                      | Some h => Some (length (live h), length (lib_blocks (skipn (ITModel.r (core s2)) (htab s2)))) end end;
+         ho_own := match sl with None => [] | Some s2 => skipn (ITModel.r (core s2)) (htab s2) end |}
       
     end
   end.
